@@ -155,6 +155,9 @@ func fcHarnesses() []*schedx.Harness {
 		{Name: "fc/justify+head+insubtree", New: newFC, Threads: [][]schedx.Op{{uj}, {headOp, vote(1, rC, 2)}, {inSub(rA, rC), headOp}}},
 		{Name: "fc/finalize+queries", New: newFC, Threads: [][]schedx.Op{{ujFin}, {canon, headOp}, {getSlot, inSub(rB, rC)}}},
 		{Name: "fc/two-voters+readers", New: newFC, Threads: [][]schedx.Op{{vote(0, rD, 1), headOp}, {vote(1, rC, 2)}, {getSlot, justified}}},
+		// pending votes are folded into the weights by whichever head computation comes first: every head
+		// computation is a writer
+		{Name: "fc/votes+concurrent-head-computations", New: newFC, Threads: [][]schedx.Op{{vote(0, rD, 1), findHead}, {vote(1, rC, 2), findHead}, {findHead, headOp}}},
 		{Name: "fc/pin", New: newFC, Threads: [][]schedx.Op{{setPin}, {pin, headOp}, {findHead}}},
 		{Name: "fc/search+slot", New: newFC, Threads: [][]schedx.Op{{search, search}, {slotOp, block(rC, rX, 4)}}},
 	}
